@@ -118,7 +118,7 @@ func runC05(c *vf.Case) {
 	r := c.Rng
 	runtime.LockOSThread()
 	defer runtime.UnlockOSThread()
-	mode := c.Index % 7
+	mode := c.Index % 8
 	w, err := sim.NewWorld(c)
 	if err != nil {
 		c.Failf("harness-setup", "NewWorld: %v", err)
@@ -242,6 +242,49 @@ func runC05(c *vf.Case) {
 			close(start[k])
 		}
 		c.Count("burst_wake_rounds", rounds)
+	case 3: // RunPending while other goroutines post: it may only return once the loop-owned timer has fired
+		tm, terr := w.NewTimer()
+		if terr != nil {
+			c.Failf("harness-setup", "%v", terr)
+			return
+		}
+		P := r.Range(2, 6)
+		stop := int32(0)
+		for p := 0; p < P; p++ {
+			x.posters.Add(1)
+			go func(p int) {
+				defer x.posters.Done()
+				for i := 0; atomic.LoadInt32(&stop) == 0 && i < 200000; i++ {
+					x.post(ioc, 40+p, i, 0, &nested)
+					if i%4 == 0 {
+						runtime.Gosched()
+					}
+				}
+			}(p)
+		}
+		early := 0
+		rounds := r.Range(3, 8)
+		for round := 0; round < rounds && !c.Failed(); round++ {
+			_ = w.Arm(tm, time.Duration(r.Range(5, 25))*time.Millisecond)
+			var rerr error
+			c.Bounded("runpending-never-returns", 60*time.Second, func() { rerr = ioc.RunPending() })
+			if rerr != nil {
+				c.Failf("runpending-error", "RunPending returned %v", rerr)
+			}
+			if tm.Armed {
+				early++
+				c.Failf("runpending-returned-while-an-operation-was-in-flight", "RunPending returned although the timer armed by the loop had not fired yet (Pending() dipped to zero while other goroutines were posting)")
+			}
+			if low := ioc.Pending(); low < 0 {
+				c.Failf("pending-negative", "Pending()=%d", low)
+			}
+		}
+		atomic.StoreInt32(&stop, 1)
+		x.posters.Wait()
+		for i := 0; i < 50; i++ {
+			_, _ = ioc.PollOne()
+		}
+		c.Count("runpending_rounds_with_concurrent_posts", rounds)
 	default: // concurrent posters while the loop polls, arms/cancels timers and starts/cancels reads
 		P := []int{1, 4, 16}[r.Intn(3)]
 		N := r.Range(200, 2500)
@@ -282,6 +325,11 @@ func runC05(c *vf.Case) {
 				}
 				if q := ioc.Posted(); q > maxQueue {
 					maxQueue = q
+				}
+				// posted handlers only ever add to the count: Pending() can never be below what the loop itself owns
+				if owned := int64(w.ArmedTimers + len(w.InFlight())); ioc.Pending() < owned {
+					c.Failf("pending-below-loop-owned-operations", "Pending()=%d while the loop goroutine alone has %d operations in flight (a concurrent Post made the count dip)", ioc.Pending(), owned)
+					break
 				}
 				switch loopMode {
 				case 0:
@@ -397,7 +445,7 @@ func init() {
 	register(&vf.Check{
 		ID:        "C05",
 		Technique: "race detector (-race build) over a concurrent Post workload + offline checkers over the recorded event log (exactly-once, thread identity, per-poster FIFO linearizability with porcupine) + bounded-progress probes (nested Post, wake-up) + delay injection at poller verifPoints",
-		Rule: "cases = rounds of {1,4,16} poster goroutines x 20-300 (thorough: up to 3000) posts, every 16th handler posting again, while the locked loop goroutine cycles PollOne/RunOneFor and arms/cancels a timer and starts/cancels a socket read (same counters); nested-Post probes (depth 1-3); wake probes (loop blocked in RunOne, Post from another goroutine); burst wake probes (1500 rounds of 2-4 simultaneous posts against a loop blocked in RunOne); PRNG-driven yields/spins at the verifPoints post:after-append, poll:after-wait, poll:batch-entry, dispatch:before-lock, dispatch:after-swap in two thirds of the rounds; " +
+		Rule: "cases = rounds of {1,4,16} poster goroutines x 20-300 (thorough: up to 3000) posts, every 16th handler posting again, while the locked loop goroutine cycles PollOne/RunOneFor and arms/cancels a timer and starts/cancels a socket read (same counters); nested-Post probes (depth 1-3); wake probes (loop blocked in RunOne, Post from another goroutine); RunPending with a loop-owned 5-25 ms timer while 2-6 goroutines post continuously; burst wake probes (1500 rounds of 2-4 simultaneous posts against a loop blocked in RunOne); PRNG-driven yields/spins at the verifPoints post:after-append, poll:after-wait, poll:batch-entry, dispatch:before-lock, dispatch:after-swap in two thirds of the rounds; " +
 			"every round is non-trivial; distinct = (mode, number of posts, delay points hit)",
 		Assumptions: []string{
 			"Posted()/Pending() are compared only at quiescence",
@@ -413,12 +461,13 @@ func init() {
 		},
 		NumCases: func(tier, build string) int {
 			if tier == "thorough" {
-				return 630
+				return 640
 			}
-			return 42
+			return 48
 		},
-		Shards: func(tier, build string) int { return 6 },
-		Floor:  func(tier string) int { return vf.Tiered(tier, 10, 100) },
-		Run:    runC05,
+		Shards:      func(tier, build string) int { return 6 },
+		Floor:       func(tier string) int { return vf.Tiered(tier, 10, 100) },
+		CaseTimeout: 400 * time.Second,
+		Run:         runC05,
 	})
 }
